@@ -390,6 +390,29 @@ impl ExpressionParser {
         false
     }
 
+    /// Creates the expression for "left.right".\
+    /// "right" is a field name, a method call or one of these followed by index operators
+    /// ("a.b[1]" is the element 1 of field "b" of "a").
+    fn member_of(le: Box<dyn Expression>, re: &dyn Expression) -> Result<Box<dyn Expression>, String> {
+        if let Some(variable) = get_expression_as::<ExpressionVariable>(re) {
+            Ok(Box::new(ExpressionMemberAccess::new(
+                le,
+                variable.name.clone(),
+            )))
+        } else if let Some(method) = get_expression_as::<ExpressionMethod>(re) {
+            let mut method_copy = method.get_copy();
+            method_copy.arguments.insert(0, le);
+            Ok(method_copy)
+        } else if let Some(index) = get_expression_as::<ExpressionIndex>(re) {
+            Ok(Box::new(ExpressionIndex::new(
+                Self::member_of(le, index.left.deref())?,
+                index.index.get_copy(),
+            )))
+        } else {
+            Err("No Field/Method on right side of '.'".to_string())
+        }
+    }
+
     /// Tries to create an expression from the current contents of the parser-stack.
     fn stack_to_expression(stack: &mut Vec<ExpressionParserItem>) -> Result<Option<Box<dyn Expression>>, String> {
         // Fold one operator after the other. A loop, not a recursion: the number of operators
@@ -546,19 +569,7 @@ impl ExpressionParser {
                         stack,
                         best_idx,
                         |le: Box<dyn Expression>, re: Box<dyn Expression>| -> Result<Box<dyn Expression>, String> {
-                            if let Some(variable) = get_expression_as::<ExpressionVariable>(re.deref()) {
-                                return Ok(Box::new(ExpressionMemberAccess::new(
-                                    le,
-                                    variable.name.clone(),
-                                )));
-                            }
-                            if let Some(method) = get_expression_as::<ExpressionMethod>(re.deref()) {
-                                let mut method_copy = method.get_copy();
-                                method_copy.arguments.insert(0, le);
-                                Ok(method_copy)
-                            } else {
-                                Err("No Field/Method on right side of '.'".to_string())
-                            }
+                            Self::member_of(le, re.deref())
                         },
                     )
                 {
